@@ -15,7 +15,7 @@ from . import c08
 
 PROP = "C09"
 TOK = re.compile(r"'(?:[^'\\]|\\.|'')*'|\"(?:[^\"\\]|\\.)*\"|`[^`]*`|\d+\.\d+|\w+|<=>|<=|>=|<>|!=|<<|>>|&&|\|\||==|[^\w\s]", re.S)
-SEPS = [" ", "  ", "\n", "\t", " \n ", " /* c */ ", "/**/", " -- c\n", " # c\n ", "\n\n", " /* SELECT ; */ "]
+SEPS = [" ", "  ", "\n", "\t", " \n ", " /* c */ ", "/**/", " -- c\n", " # c\n ", "\n\n", " /* SELECT ; */ ", "/** c **/", "/***/", " /* c **/ ", " /*** c ***/ ", "/****/"]
 DML = ("SELECT", "INSERT", "UPDATE", "DELETE")
 AGG = {"SUM", "COUNT", "MAX", "MIN", "AVG"}
 
